@@ -1,5 +1,5 @@
 (* C15 — field lists expose exactly the documented bits and render deterministically. *)
-From GV Require Import Tables.ObsTypes Tables.Lookup Gen.Obs Tables.Enum Tables.EnumFacts.
+From GV Require Import Tables.ObsTypes Tables.Lookup Gen.ObsEnum Tables.Enum Tables.EnumFacts.
 
 Theorem C15_fields : forall (m : list (Z * string)) raw,
   map fst (fl_fields m raw) = map fst m /\
